@@ -158,6 +158,7 @@ fn main() {
         out.count("merge_outlives_writer_scenarios", 1);
     }
     for (ok, d) in e1::uncommitted_delete_all_then_policy_merge() { out.spec_checked(ok, d); }
+    for k in 0..2 { for (ok, d) in e1::stale_save_in_flight(k == 1) { out.spec_checked(ok, d); } out.count("stale_save_in_flight_scenarios", 1); }
     mmap_lock_schedules(&mut rng, &mut out, if thorough { 60 } else { 12 });
     lockfile_meta_lock_schedules(&mut rng, &mut out, if thorough { 200 } else { 40 });
     out.finish(json!({"tier": args.tier, "seed": args.seed}));
